@@ -12,5 +12,7 @@ set -e
 ( CARGO_TARGET_DIR="$OUT/xtbin" cargo build --release --offline --bin xt --manifest-path /repo/Cargo.toml )
 ( CARGO_TARGET_DIR="$OUT/xtbin" cargo build --offline --bin xt --manifest-path /repo/Cargo.toml )
 ( cd harness && CARGO_TARGET_DIR="$OUT/target-asan" RUSTFLAGS="-Zsanitizer=address -Cforce-frame-pointers=yes" \
+    cargo +nightly build --release --offline --target x86_64-unknown-linux-gnu --bin xtv_san )
+( cd harness && CARGO_TARGET_DIR="$OUT/target-asan-shipped" RUSTFLAGS="-Zsanitizer=address -Cforce-frame-pointers=yes" \
     cargo +nightly build --release --offline --target x86_64-unknown-linux-gnu --bin xtv_san --config profile.release.package.xt.debug-assertions=false --config profile.release.package.xt.overflow-checks=false )
 echo "setup ok"
